@@ -111,8 +111,9 @@ class Mod:
             raise AnalysisError(f"cannot parse {rel}: {e}")
         # local names carry no meaning: rename them to the names the rules were written against wherever a local's
         # defining statements are unchanged (engine/roles.py)
-        from . import roles
+        from . import normal, roles
 
+        normal.normalise(self.tree)
         roles.normalise(self.tree, rel)
         self.modname = rel[:-3].replace("/", ".")
         if self.modname.endswith(".__init__"):
